@@ -73,6 +73,13 @@ const (
 	evUnwhite = 22 // a cidr  IPManager.RemoveFromWhitelist
 	evOverlap = 24 // n       the NEXT op is a handshake message that overlaps with the n ops after it: they complete between its gate
 	//                         checks and the rest of it (hook in the cloud lookup the handler makes right after the gates)
+	evBanPerm    = 25 // a           operator BanIP(ip, 0): permanent
+	evTempLapse  = 26 // a           two hours pass for the ban record of a (shim VerifShiftBanExpiry): a temporary ban is over
+	evBlackW     = 27 // a perm      blacklist the wider range (/31, /127) covering a
+	evUnblackW   = 28 // a
+	evBlackLapse = 29 // a key quiet a 3 ms blacklist entry on the exact (0) / range (1) / wider range (2) key of a, and 8 ms pass: the
+	//                               expired record stays in the table.  quiet=1: IPManager.IsAllowed is not called for a until the next
+	//                               handshake from a, which therefore is the FIRST lookup after the expiry
 	evCorrupt  = 14 // x kind  the stored credential (ClientConfig.SecretKeyEncrypted) of client x becomes unusable:
 	//                         0 "" (unmigrated legacy record) | 1 not base64 | 2 base64 but not decryptable |
 	//                         3 sealed under another master key | 4 base64 shorter than a nonce
@@ -191,11 +198,16 @@ type world struct {
 	blackCidr map[int]bool
 	whiteIP   map[int]bool
 	whiteCidr map[int]bool
+	blackWide map[int]bool
+	quiet     map[int]bool // do not call IsAllowed for this address before its next handshake
+	specPerm  map[int]bool // a permanent ban was put on / seen on this address: only UnbanIP or a restart lifts it
+	permSeen  map[int]bool
 	fam       map[int]int // address family per address: 0 IPv4, 1 global IPv6, 2 link-local IPv6
 	// a ban once seen in force (manual 1 h, or by failures 30 min / permanent) must stay until UnbanIP or a restart
 	specBan  map[int]bool
 	lostSeen map[int]bool
 	held    int // GOMAXPROCS to restore (0 = not held)
+	msgCount int // handshake steps run so far (to notice steps nested inside an overlapped one)
 	viol      []viol
 }
 
@@ -343,7 +355,11 @@ func (w *world) observe(o *stepObs, in *caseIn) {
 		if bannedNow(ip) {
 			bi = 1
 		}
-		if ok, _ := fx.IPManager.IsAllowed(ip); !ok {
+		if w.quiet[a] {
+			if w.specBlocked(a) {
+				ki = 1
+			}
+		} else if ok, _ := fx.IPManager.IsAllowed(ip); !ok {
 			ki = 1
 		}
 		o.B, o.K, o.F = append(o.B, bi), append(o.K, ki), append(o.F, fx.BruteForce.GetFailureCount(ip))
@@ -398,8 +414,16 @@ func (w *world) cidr(a int) string {
 	return w.ip(a) + "/128"
 }
 
+// the wider range covering a (and its /31 resp. /127 neighbour, which no case uses as an address)
+func (w *world) wide(a int) string {
+	if w.fam[a] == 0 {
+		return w.ip(a) + "/31"
+	}
+	return w.ip(a) + "/127"
+}
+
 func (w *world) specBlocked(a int) bool {
-	return !(w.whiteIP[a] || w.whiteCidr[a]) && (w.blackIP[a] || w.blackCidr[a])
+	return !(w.whiteIP[a] || w.whiteCidr[a]) && (w.blackIP[a] || w.blackCidr[a] || w.blackWide[a])
 }
 
 func (w *world) v(step int, kind, f string, a ...interface{}) {
@@ -492,9 +516,11 @@ func (w *world) msgStep(step int, op []int, o *stepObs, out *caseOut) {
 	gated := false
 	if c != nil {
 		ip := w.addrs[c.addr]
+		// (neither IsBanned nor IsAllowed is called here: both schedule asynchronous removals of expired records, and this
+		// handshake must be allowed to be the first lookup after an expiry)
 		b := bannedNow(ip)
-		ok, _ := fx.IPManager.IsAllowed(ip)
-		gated = b || !ok || w.specBlocked(c.addr) || w.specBan[c.addr]
+		gated = b || w.specBlocked(c.addr) || w.specBan[c.addr]
+		w.quiet[c.addr] = false
 		if c.leak {
 			// already reported when the connection was opened (one finding, no cascade): the gates see another key
 			gated = false
@@ -534,6 +560,8 @@ func (w *world) msgStep(step int, op []int, o *stepObs, out *caseOut) {
 	}
 	nKnown := len(w.clients)
 
+	w.msgCount++
+	countBefore := w.msgCount
 	herr := fx.Session.HandlePacket(&types.StreamPacket{ConnectionID: connID,
 		Packet: &packet.TransferPacket{PacketType: packet.Handshake, Payload: payload}, Timestamp: time.Now()})
 	if herr != nil {
@@ -597,6 +625,20 @@ func (w *world) msgStep(step int, op []int, o *stepObs, out *caseOut) {
 
 	// ---- predicate: evaluated on the real code's state and outputs
 	postSnap, postIdx := w.snapshot()
+	if w.msgCount != countBefore {
+		// other handshakes completed inside this one (overlap): each of them was checked by its own step; what they changed on
+		// OTHER connections and on registry entries not involving this connection is not this step's doing
+		for kk := range preSnap {
+			if kk != k {
+				preSnap[kk] = postSnap[kk]
+			}
+		}
+		for i := range preIdx {
+			if i < len(postIdx) && postIdx[i] != k && preIdx[i] != k {
+				preIdx[i] = postIdx[i]
+			}
+		}
+	}
 	success := resp != nil && resp.Success
 	if success && proofFor == 0 && anonProof > 0 {
 		// recorded shape (key anon-delete-keeps-credentials); treated as a proof afterwards to avoid a cascade
@@ -700,6 +742,20 @@ func (w *world) msgStep(step int, op []int, o *stepObs, out *caseOut) {
 // state predicate after every event: authenticated => proved; registry respects proofs; blacklisted => refused
 func (w *world) invariants(step int) {
 	for a, ip := range w.addrs {
+		perm := false
+		for _, r := range fx.BruteForce.GetBannedIPs() {
+			if r.IP == ip && r.ExpiresAt.IsZero() {
+				perm = true
+			}
+		}
+		if perm {
+			w.specPerm[a] = true
+		} else if w.specPerm[a] && !w.permSeen[a] {
+			w.v(step, "permanent-ban-weakened", "address %d was banned permanently (no UnbanIP, no restart) and its ban record is no longer permanent (banned now: %v)", a, bannedNow(ip))
+			w.permSeen[a] = true
+		}
+	}
+	for a, ip := range w.addrs {
 		if bannedNow(ip) {
 			w.specBan[a] = true
 		} else if w.specBan[a] && !w.lostSeen[a] {
@@ -710,7 +766,7 @@ func (w *world) invariants(step int) {
 		}
 	}
 	for a, ip := range w.addrs {
-		if w.specBlocked(a) {
+		if w.specBlocked(a) && !w.quiet[a] {
 			if ok, _ := fx.IPManager.IsAllowed(ip); ok {
 				w.v(step, "blacklist-gate-lost", "address %d is blacklisted (ip entry %v, range entry %v) and not whitelisted but IPManager.IsAllowed says yes", a, w.blackIP[a], w.blackCidr[a])
 			}
@@ -839,7 +895,7 @@ func runCase(raw json.RawMessage) interface{} {
 	var in caseIn
 	must(json.Unmarshal(raw, &in))
 	caseSeq++
-	w := &world{whiteIP: map[int]bool{}, whiteCidr: map[int]bool{}, fam: map[int]int{}, specBan: map[int]bool{}, lostSeen: map[int]bool{}, blackIP: map[int]bool{}, blackCidr: map[int]bool{}, conns: map[int]*hconn{}, addrs: map[int]string{}, clients: []*hclient{nil}, secrets: []string{""}, chals: []string{""}}
+	w := &world{blackWide: map[int]bool{}, quiet: map[int]bool{}, specPerm: map[int]bool{}, permSeen: map[int]bool{}, whiteIP: map[int]bool{}, whiteCidr: map[int]bool{}, fam: map[int]int{}, specBan: map[int]bool{}, lostSeen: map[int]bool{}, blackIP: map[int]bool{}, blackCidr: map[int]bool{}, conns: map[int]*hconn{}, addrs: map[int]string{}, clients: []*hclient{nil}, secrets: []string{""}, chals: []string{""}}
 	out := &caseOut{}
 	for k, v := range in.Fam {
 		var a int
@@ -847,39 +903,38 @@ func runCase(raw json.RawMessage) interface{} {
 		w.fam[a] = v
 	}
 	steps := make([]stepObs, len(in.Ops))
-	for i := 0; i < len(in.Ops); i++ {
-		op := in.Ops[i]
-		if op[0] == evOverlap {
-			// the next op (a handshake message on one connection) runs with a hook between its gate checks and the rest:
-			// the following n ops (handshakes of OTHER connections) complete at that point
-			n := op[1]
+	var run func(lo, hi int)
+	run = func(lo, hi int) {
+		for i := lo; i < hi; i++ {
+			op := in.Ops[i]
+			if op[0] != evOverlap {
+				w.exec(i, op, &steps[i], out, &in)
+				continue
+			}
+			// the next op (a handshake message on one connection) runs with a hook between its gate checks and the rest: the
+			// following n ops (handshakes of OTHER connections, operator actions; possibly overlapped themselves) complete there
 			w.invariants(i)
 			w.observe(&steps[i], &in)
-			inner := []int{}
-			for j := i + 2; j <= i+1+n && j < len(in.Ops); j++ {
-				inner = append(inner, j)
+			a, ilo, ihi := i+1, i+2, i+2+op[1]
+			if ihi > hi {
+				ihi = hi
 			}
 			fired := false
 			cloudHook = func() {
 				fired = true
-				for _, j := range inner {
-					w.exec(j, in.Ops[j], &steps[j], out, &in)
-				}
+				run(ilo, ihi)
 			}
-			w.exec(i+1, in.Ops[i+1], &steps[i+1], out, &in)
+			w.exec(a, in.Ops[a], &steps[a], out, &in)
 			cloudHook = nil
 			if fired {
-				steps[i+1].Hooked = 1
+				steps[a].Hooked = 1
 			} else {
-				for _, j := range inner {
-					w.exec(j, in.Ops[j], &steps[j], out, &in)
-				}
+				run(ilo, ihi)
 			}
-			i += 1 + len(inner)
-			continue
+			i = ihi - 1
 		}
-		w.exec(i, op, &steps[i], out, &in)
 	}
+	run(0, len(in.Ops))
 	out.Steps = steps
 	return w.finish(&in, out)
 }
@@ -899,6 +954,45 @@ func (w *world) exec(i int, op []int, po *stepObs, out *caseOut, pin *caseIn) {
 			fx.BruteForce.UnbanIP(w.ip(op[1]))
 			w.specBan[op[1]] = false
 			w.lostSeen[op[1]] = false
+			w.specPerm[op[1]] = false
+			w.permSeen[op[1]] = false
+		case evBanPerm:
+			fx.BruteForce.BanIP(w.ip(op[1]), 0, "verif-permanent")
+			w.specBan[op[1]] = true
+			w.specPerm[op[1]] = true
+		case evTempLapse:
+			fx.BruteForce.VerifShiftBanExpiry(w.ip(op[1]), 2*time.Hour)
+			if !w.specPerm[op[1]] {
+				w.specBan[op[1]] = false
+				w.lostSeen[op[1]] = false
+			}
+		case evBlackW:
+			d := time.Hour
+			if len(op) > 2 && op[2] == 1 {
+				d = 0
+			}
+			must(fx.IPManager.AddToBlacklist(w.wide(op[1]), d, "verif", "verif"))
+			w.blackWide[op[1]] = true
+		case evUnblackW:
+			fx.IPManager.RemoveFromBlacklist(w.wide(op[1]))
+			w.blackWide[op[1]] = false
+		case evBlackLapse:
+			key := w.ip(op[1])
+			switch op[2] {
+			case 0:
+				w.blackIP[op[1]] = false
+			case 1:
+				key = w.cidr(op[1])
+				w.blackCidr[op[1]] = false
+			default:
+				key = w.wide(op[1])
+				w.blackWide[op[1]] = false
+			}
+			must(fx.IPManager.AddToBlacklist(key, 3*time.Millisecond, "verif-short", "verif"))
+			time.Sleep(8 * time.Millisecond)
+			if len(op) > 3 && op[3] == 1 {
+				w.quiet[op[1]] = true
+			}
 		case evBanLapse:
 			fx.BruteForce.BanIP(w.ip(op[1]), 3*time.Millisecond, "verif-short")
 			time.Sleep(8 * time.Millisecond)
@@ -963,6 +1057,8 @@ func (w *world) exec(i int, op []int, po *stepObs, out *caseOut, pin *caseIn) {
 			w.rateOff = false
 			w.specBan = map[int]bool{}
 			w.lostSeen = map[int]bool{}
+			w.specPerm = map[int]bool{}
+			w.permSeen = map[int]bool{}
 		case evExpire:
 			if op[1] >= 1 && op[1] < len(w.clients) && !w.clients[op[1]].deleted {
 				w.expire(op[1])
@@ -1072,6 +1168,8 @@ func (w *world) finish(pin *caseIn, out *caseOut) interface{} {
 		fx.IPManager.RemoveFromBlacklist(ip)
 		fx.IPManager.RemoveFromBlacklist(ip + "/32")
 		fx.IPManager.RemoveFromBlacklist(ip + "/128")
+		fx.IPManager.RemoveFromBlacklist(ip + "/31")
+		fx.IPManager.RemoveFromBlacklist(ip + "/127")
 		fx.IPManager.RemoveFromWhitelist(ip)
 		fx.IPManager.RemoveFromWhitelist(ip + "/32")
 		fx.IPManager.RemoveFromWhitelist(ip + "/128")
